@@ -485,7 +485,7 @@ def r15_3(ctx, family: Optional[str] = None) -> None:
     regm = P.mod("registry")
     n = 0
 
-    def cmp(name, got, want):
+    def cmp(name, got, want, exact_names: bool = False):
         nonlocal n
         n += 1
         # every RFC parameter is registered with the RFC's type and required flag.  Further OPTIONAL parameters with one of the known validators are
@@ -495,7 +495,8 @@ def r15_3(ctx, family: Optional[str] = None) -> None:
         for k in set(got) - set(want):
             v = got[k]
             harmless = isinstance(v, tuple) and len(v) == 2 and v[1] is False and v[0] in T.VALIDATOR_KEYS.values() and k not in UNIMPLEMENTED_EXTENSIONS
-            if not harmless:
+            # (an algorithm's own table is exact: a name it lists is a name the strict check lets through for that algorithm - `skid` is ECDH-1PU's, not ECDH-ES's)
+            if not harmless or exact_names:
                 diff[k] = (v, None)
         ctx.check(not diff, "R15.3", None, None, name, f"{name} differs from the RFC table: {diff}", f"{len(want)} parameters with validators and required flags",
                   construct=name)
@@ -508,7 +509,7 @@ def r15_3(ctx, family: Optional[str] = None) -> None:
         cs = [c for c in P.classes.values() if c.name == cname]
         if len(cs) != 1:
             raise AnalysisError(f"class {cname} not found")
-        cmp(f"{cname}.more_header_registry", _fold_table(eng, F.class_attr(cs[0], "more_header_registry")), want)
+        cmp(f"{cname}.more_header_registry", _fold_table(eng, F.class_attr(cs[0], "more_header_registry")), want, exact_names=True)
     # models without algorithm-specific parameters have an empty table
     km = P.cls("rfc7516.models:KeyManagement")
     for c in (km.all_subclasses() if family != "jws" else ()):
@@ -1176,6 +1177,8 @@ def run(ctx) -> None:
     ctx.guard(forwarding_discipline, "R15.7", ['registry', 'header', 'protected', 'obj', 'strict_check_header', 'header_registry'], 43)  # arguments are handed on under their own name (generic routing rule, rules/common.py)
     from .c04 import r04_4
     ctx.guard_as("R15.6", r04_4)  # what check_header validates is the union of protected, shared unprotected and per-recipient members
+    from .c05 import r05_10 as _r05_10
+    ctx.guard_as("R15.11", _r05_10)  # "a caller-registered parameter ... is enforced": the registry the caller passed (its header table) is the one that judges, never a replacement
     ctx.guard(r15_8)
     ctx.guard(r15_9)
     ctx.guard(r15_10)
